@@ -40,7 +40,7 @@ fn static_eval_rq_operator(mut expr: Expr) -> Expr {
                 (&args[0].kind, &args[1].kind)
             {
                 // don't eval comparisons between different types of literals
-                if left.as_ref() == right.as_ref() {
+                if left.as_ref() == right.as_ref() && has_one_spelling(left) {
                     return Expr::new(Literal::Boolean(left == right));
                 }
             }
@@ -50,7 +50,7 @@ fn static_eval_rq_operator(mut expr: Expr) -> Expr {
                 (&args[0].kind, &args[1].kind)
             {
                 // don't eval comparisons between different types of literals
-                if left.as_ref() == right.as_ref() {
+                if left.as_ref() == right.as_ref() && has_one_spelling(left) {
                     return Expr::new(Literal::Boolean(left != right));
                 }
             }
@@ -83,6 +83,23 @@ fn static_eval_rq_operator(mut expr: Expr) -> Expr {
     };
     expr.kind = ExprKind::RqOperator { name, args };
     expr
+}
+
+/// Whether equal values of this kind of literal are written in the same way.
+/// Dates, times and intervals are kept as their text (`@12:00` and `@12:00:00`,
+/// `7days` and `1weeks`), so comparing them is left to the database.
+fn has_one_spelling(literal: &Literal) -> bool {
+    match literal {
+        Literal::Null
+        | Literal::Integer(_)
+        | Literal::Float(_)
+        | Literal::Boolean(_)
+        | Literal::String(_)
+        | Literal::RawString(_) => true,
+        Literal::Date(_) | Literal::Time(_) | Literal::Timestamp(_) | Literal::ValueAndUnit(_) => {
+            false
+        }
+    }
 }
 
 fn static_eval_case(mut expr: Expr) -> Expr {
